@@ -2,7 +2,10 @@ import random
 import math
 import sys
 
-import numpy as np  # type: ignore
+try:
+    import numpy as np  # type: ignore
+except ImportError:
+    pass
 
 from cspuz import Solver, graph
 from cspuz.constraints import count_true
